@@ -410,7 +410,7 @@ def check_session_case(ctx, case):
     cookie_src = {}
     userinfo_src = {}
     if info0.username or info0.password:
-        userinfo_src[(info0.username or '', info0.password or '')] = rc.expected_host(info0)
+        userinfo_src.setdefault((info0.username or '', info0.password or ''), set()).add(rc.expected_host(info0))
     for k, (host, port, head, body) in enumerate(res['hops']):
         problems, method, target, version, fields = rc.split_request(head)
         where = 'WebSession.hop'
@@ -451,13 +451,13 @@ def check_session_case(ctx, case):
                 ok_sources = set()
                 if login:
                     ok_sources.add(login)
-                here = [ui for ui, h in userinfo_src.items() if h == (hvals[0] if hvals else None)]
+                here = [ui for ui, hs in userinfo_src.items() if (hvals[0] if hvals else None) in hs]
                 for ui in here:
                     ok_sources.add(ui)
                     if login:
                         ok_sources.add((ui[0] or login[0], ui[1] or login[1]))
                 if up not in {'%s:%s' % src for src in ok_sources}:
-                    owner = [h for ui, h in userinfo_src.items() if '%s:%s' % ui == up]
+                    owner = [sorted(hs) for ui, hs in userinfo_src.items() if '%s:%s' % ui == up]
                     ctx.fail('cross-host-credentials', where, case,
                              'hop %d to %s carries credentials %r that belong to %r (head %r)' % (k, hvals, up, owner, head[:300]))
             if n.lower() == 'cookie':
@@ -486,7 +486,7 @@ def check_session_case(ctx, case):
                     tgt_host = ('[%s]' % c['hostname'] if c['ipv6'] else c['hostname'])
                     if c['port'] != {'http': 80, 'https': 443}[c['scheme']]:
                         tgt_host += ':%d' % c['port']
-                    userinfo_src.setdefault((c['username'], c['password']), tgt_host)
+                    userinfo_src.setdefault((c['username'], c['password']), set()).add(tgt_host)      # the same text may be given for several hosts
     ctx.sample({'stream': 'session', 'url': case['url'], 'statuses': codes, 'outcome': res['outcome'], 'hops': len(res['hops'])})
 
 
